@@ -182,6 +182,19 @@ def r2_manifest_after_commit(P, rep, ctx, rule="C11.R2"):
     paths = sorted({f.x_at(i, p_) for i, p_, o, k, c in mwrites})
     rep.check(paths == ["self._manifest_filepath(self._files[-1].filename)"], rule, fi.qual, "the manifest is written next to the newest container only", fi.loc(), construct="manifest save target",
               message=f"commit_patch writes the manifest to {paths}: a manifest file belonging to an already committed container can be overwritten")
+    # ... and that sidecar path is a function of the *container file* (one manifest per container): a path derived from the
+    # record name would make every commit overwrite the manifest an already committed container is hash-linked to
+    mpf = P.func("ih5.manifest.IH5MFRecord._manifest_filepath")
+    mf_ = F(ctx, mpf)
+    cp_ = mpf.params[1]
+    mrets = [MM.canon_strings(mf_.xe_at(i, v)) for i, v in mf_.returns() if v is not None]
+    texts = [norm(v) for v in mrets]
+    good = {f"Path(f'{{{cp_}}}{{cls.MANIFEST_EXT}}')", f"Path(f'{{{cp_}}}{{cls.MANIFEST_EXT}}')".replace("cls.", "IH5MFRecord."), f"Path({cp_}).with_name(f'{{Path({cp_}).name}}{{cls.MANIFEST_EXT}}')"}
+    lossy = [t for t in texts if any(w in t for w in ("_base_filename", "_infer_name", ".parent", ".stem", ".split(", "with_suffix", "_PATCH_INFIX"))]
+    if texts and not lossy and not all(t in good for t in texts):
+        raise AnalysisError(f"{rule}: _manifest_filepath has an unrecognised shape: {texts}")
+    rep.check(bool(texts) and not lossy, rule, mpf.qual, "the manifest file name is the container file name plus the manifest extension (one sidecar per container)", mpf.loc(), construct="_manifest_filepath",
+              message=f"_manifest_filepath derives the sidecar path from the record name instead of the container file ({texts}): all containers of a record share one manifest file, so committing a patch overwrites the manifest that the previously committed container records by hash (that container set no longer opens on its own)")
     # and not reachable through the exception edge of the commit: manifest write must not be inside the try protecting the commit
     for m in mfsave:
         in_try = any(isinstance(t, ast.Try) and any(x is g.nodes[m].stmt for b in t.body for x in ast.walk(b)) and any(x is g.nodes[s_].stmt for s_ in sup for b in t.body for x in ast.walk(b)) for t in ast.walk(fi.node))
